@@ -111,14 +111,14 @@ Fixpoint utf8_ok (s : bytes) : bool :=
 (* json_utils/bom.rs, &str: trim_start_matches('\u{feff}') removes every leading BOM *)
 Fixpoint strip_boms (s : bytes) : bytes :=
   match s with
-  | 239 :: 187 :: 191 :: r => strip_boms r
+  | a :: b :: c :: r => if (a =? 239) && (b =? 187) && (c =? 191) then strip_boms r else s
   | _ => s
   end.
 
 (* json_utils/bom.rs, &[u8]: strip_prefix(EF BB BF) removes one *)
 Definition strip_bom1 (s : bytes) : bytes :=
   match s with
-  | 239 :: 187 :: 191 :: r => r
+  | a :: b :: c :: r => if (a =? 239) && (b =? 187) && (c =? 191) then r else s
   | _ => s
   end.
 
@@ -148,14 +148,14 @@ Fixpoint escape_body (s : bytes) : bytes :=
 
 Definition print_string (s : bytes) : bytes := 34 :: escape_body s ++ [34].
 
-(* itoa: decimal digits, least significant first; fuel = bit size (always enough) *)
+(* itoa: decimal digits, least significant first; fuel = bit length + 1 (always enough) *)
 Fixpoint lsd (fuel : nat) (n : N) : list N :=
   match fuel with
   | O => []
   | S f => (n mod 10) :: (if n / 10 =? 0 then [] else lsd f (n / 10))
   end.
 
-Definition print_u (n : N) : bytes := map (fun d => 48 + d) (rev (lsd (S (N.size_nat n)) n)).
+Definition print_u (n : N) : bytes := map (fun d => 48 + d) (rev (lsd (S (S (N.to_nat (N.log2 n)))) n)).
 
 Definition print_int (z : Z) : bytes :=
   match z with
@@ -418,19 +418,22 @@ Fixpoint exp_loop (positive : bool) (sig : N) (start : Z) (pos_exp : bool) (exp 
         (if pos_exp then sat_i32 (start + Z.of_N exp) else sat_i32 (start - Z.of_N exp)) []
   end.
 
-(* parse_exponent; `s` follows the 'e' *)
-Definition parse_exponent (positive : bool) (sig : N) (start : Z) (s : bytes) : option (pnum * bytes) :=
-  let '(pos_exp, s1) :=
-    match s with
-    | 43 :: r => (true, r)
-    | 45 :: r => (false, r)
-    | _ => (true, s)
-    end in
+(* parse_exponent; `s` follows the 'e': an optional sign, then at least one digit *)
+Definition exp_sign (s : bytes) : bool * bytes :=
+  match s with
+  | c :: r => if c =? 43 then (true, r) else if c =? 45 then (false, r) else (true, s)
+  | [] => (true, [])
+  end.
+
+Definition exp_first (positive : bool) (sig : N) (start : Z) (pos_exp : bool) (s1 : bytes) : option (pnum * bytes) :=
   match s1 with
   | [] => None                                   (* EofWhileParsingValue *)
   | d :: r => if is_digit d then exp_loop positive sig start pos_exp (d - 48) r
               else None                          (* InvalidNumber *)
   end.
+
+Definition parse_exponent (positive : bool) (sig : N) (start : Z) (s : bytes) : option (pnum * bytes) :=
+  exp_first positive sig start (fst (exp_sign s)) (snd (exp_sign s)).
 
 (* what follows the digits of a number whose value is sig * 10^e: an exponent part or the end *)
 Definition exp_or_end (positive : bool) (sig : N) (e : Z) (s : bytes) : option (pnum * bytes) :=
